@@ -3,7 +3,7 @@
 From Coq Require Import ZArith List Bool Relations Permutation QArith.
 Import ListNotations.
 Require Import MV.Lib.Base MV.C15.Model MV.C15.Proofs.
-Require MV.C01.Spec MV.C01.Model MV.C15.BridgeFaces MV.C15.BridgeC01 MV.C15.BridgeThm.
+Require MV.C01.Defs MV.C01.Spec MV.C01.Model MV.C15.BridgeFaces MV.C15.BridgeC01 MV.C15.BridgeThm MV.C15.BridgeFeatThm.
 
 (* The tie to C01: for EVERY oriented manifold polygon surface (C01's wf_mesh nv faces: oriented faces + one fan of
    corners per vertex), the record read off the pure answers of C01's model of SurfaceMesh on the mesh mouette builds
@@ -34,3 +34,20 @@ Theorem C15_all_cycles_every_manifold_surface : forall nv faces, (0 <= nv)%Z -> 
 Proof. exact BridgeThm.built_all_cycles. Qed.
 Print Assumptions C15_all_cycles_every_manifold_surface.
 
+
+(* the same for the tables the feature detector reads (edge_to_faces of every edge, boundary_edges, vertex_to_edges as
+   answered by C01's model; any declared hard edge ids, any normals / angle tables): flagged edges are edges of the mesh,
+   each once; border edges are exactly the edges with a missing face; feature degree = number of local feature-edge
+   indices - for every oriented manifold surface, with no per-case check of wf_f *)
+Theorem C15_features_wf_every_manifold_surface : forall nv faces hard normals half, MV.C01.Spec.wf_mesh nv faces ->
+  (forall l e, hard = Some l -> In e l ->
+     (0 <= e < MV.C01.Defs.zlen (MV.C01.Model.m_edges (MV.C01.Model.build_mesh nv faces)))%Z) ->
+  forall o,
+    let fm := BridgeFeatThm.fmesh_of_mesh (MV.C01.Model.build_mesh nv faces) hard normals half in
+    NoDup (feature_edges fm o)
+    /\ (forall e, In e (feature_edges fm o) -> (0 <= e < Z.of_nat (length (f_edges fm)))%Z)
+    /\ (forall e, (0 <= e < Z.of_nat (length (f_edges fm)))%Z -> (In e (f_bedges fm) <-> dot_of fm e = None))
+    /\ (forall v, (0 <= v < f_nV fm)%Z ->
+          getd v (feature_degrees fm o) = Z.of_nat (length (local_feat_edges_of fm (feature_edges fm o) v))).
+Proof. exact BridgeFeatThm.built_features. Qed.
+Print Assumptions C15_features_wf_every_manifold_surface.
